@@ -8,7 +8,10 @@ THEOREMS = ["C10_formula", "C10_vacuous_guard", "C10_wf", "C10_projection", "C10
             "C10_compose_chain", "C10_compose_within", "C10_trans_unc_ok", "C10_trans_bsr_ok", "C10_trans_unc_eq",
             "C10_trans_bsr_eq", "C10_trans_opp_ok", "C10_trans_panics"]
 RULE = ("discount / discount_chain (chains of 1..4) on well-formed opinions and simplexes x t in {0, 1, dyadic, arbitrary}, vacuous and "
-        "near-vacuous inputs, n=1..4, families M/D/N, Opinion/OpinionRef/Simplex; btrans_unc, btrans_bsr, btrans_opp on the binomial "
+        "near-vacuous inputs, n=1..4, families M/D/N, Opinion/OpinionRef/Simplex; discount also over 2-D / 3-D domains (families "
+        "M2/M3/D2/D3/N2/N3 = MArr2/MArr3/MArrD2/MArrD3 with usize and newtype indices, shapes 1x2 .. 2x2x3 incl. every asymmetric "
+        "one; operands built with `new`, results read cell by cell through the index operator and compared with an independently "
+        "built container); btrans_unc, btrans_bsr, btrans_opp on the binomial "
         "grid incl. arguments slightly outside [0,1] (must panic); f32+f64. non-trivial = value returned")
 EXHAUSTIVE = {}
 nontrivial = default_nontrivial
@@ -63,6 +66,21 @@ def cases(rng, tier):
                     out.append(G.line(op, fmt, "B.o", [], x + [tb, td]))
                 else:
                     out.append(G.line(op, fmt, "B.o", [], x + [t]))
+        for _ in range(N // 3):
+            # 2-D / 3-D domains
+            fam, sh, n = G.nd_family(rng)
+            den = rng.choice([4, 8, 16, 64])
+            z = rng.random()
+            if z < 0.1:
+                b, u = G.edge_simplex(rng, fmt, n, "vac_edge")
+                w = b + [u] + [float(x) for x in G.rand_dist(rng, n, den)]
+            elif z < 0.3:
+                b, u = G.float_simplex(rng, fmt, n)
+                w = list(b) + [u] + G.float_dist(rng, fmt, n)
+            else:
+                w = G.rand_opinion(rng, n, den, rng.choice(["int", "int", "any", "vac", "dog"]))
+            t = rng.choice([Fr(0), Fr(1), Fr(1, 2), Fr(rng.randint(0, den), den), rng.random(), G.near_one(rng, fmt), Fr(1, 64)])
+            out.append(G.line("discount", fmt, fam + "." + rng.choice(["o", "r", "o.s"]), [n] + sh, w + [t]))
     return out
 
 
